@@ -13,6 +13,8 @@ import (
 	"go/ast"
 	"go/token"
 	"go/types"
+	"path/filepath"
+	"strings"
 
 	"golang.org/x/tools/go/packages"
 )
@@ -20,12 +22,19 @@ import (
 var canonMethods = map[string]bool{"Normalize": true}
 
 func (c *Ctx) runCanonFirst(rule string, pkgs []*packages.Package) {
+	c.runCanonFirstFiles(rule, pkgs, nil)
+}
+
+func (c *Ctx) runCanonFirstFiles(rule string, pkgs []*packages.Package, fileOK func(name string) bool) {
 	for _, p := range pkgs {
 		if p == nil {
 			continue
 		}
 		info := p.TypesInfo
 		for _, file := range p.Syntax {
+			if fn := c.Fset.Position(file.Pos()).Filename; fileOK != nil && !strings.Contains(fn, "/fixtures/") && !fileOK(filepath.Base(fn)) {
+				continue
+			}
 			for _, d := range file.Decls {
 				fd, ok := d.(*ast.FuncDecl)
 				if !ok || fd.Body == nil {
